@@ -32,6 +32,10 @@ MCEditsWide  == {E("b1", "d1", TRUE), E("b1", "dd", FALSE), E("b2c", "gen", FALS
 MCEditsQ     == {E("b1", "dd", TRUE), E("b2c", "gen", FALSE)}
 MCHelpers    == {"h", "hc"}
 MCHelpersQ   == {"hc"}
+MCHelpersH   == {"h"}
+MCImportsA   == {"alias"}
+MCImportsQ3  == {"alias", "asfx", "arsv"}
+MCImportsS   == {"asfx"}
 MCImportsQ   == {"alias", "asfx", "blank", "blank2"}
 MCCmt        == {"b2c", "hc"}
 MCImports    == {"alias", "dot"}
@@ -44,5 +48,12 @@ MCCfgs       == {C("single", "single"), C("follow", "single")}
 MCCfgsAll    == {C("single", "single"), C("follow", "single"), C("single", "follow"), C("follow", "follow")}
 MCCfgsFollow == {C("follow", "single")}
 MCNoDev      == {}
+MCDevWarn    == {"warnNesting"}
+MCDevSfx     == {"aliasSuffix"}
+MCDevRsv     == {"aliasReserved"}
+MCDevBlank   == {"blank2"}
+MCDevDoc     == {"docDirective"}
+MCDevStale   == {"staleFile"}
+MCDevRoot    == {"rootLeftover"}
 MCAllDevs    == AllDevs
 =============================================================================
